@@ -108,6 +108,26 @@ C18_OwnerReasserts(reg, reg2, me, u) ==
 C18_Idempotent(reg, me, u) == Apply(reg, me, u) = reg
 C18_IdempotentNow(reg, me, u) == Apply(Apply(reg, me, u), me, u) = Apply(reg, me, u)
 
+(* Property-level STEP relations: what C18 demands of one step reg -> r2 of a peer (own id `me`),   *)
+(* leaving to the implementation by how much a clock advances and whether an equal-clock removal    *)
+(* is accepted.  The functions SetLocal / RemoveState / Apply above are the implementation-level    *)
+(* prediction (a mismatch with them alone is DRIFT `awareness-clock-policy`).                        *)
+OthersKept(reg, r2, cs) == DOMAIN r2 = DOMAIN reg \cup cs /\ \A c \in DOMAIN reg \ cs : r2[c] = reg[c]
+C18_SetStep(reg, me, v, r2) ==
+  OthersKept(reg, r2, {me}) /\ r2[me].data = v /\ (me \in DOMAIN reg => r2[me].clock > reg[me].clock)
+C18_RemoveStep(reg, c, r2) ==
+  OthersKept(reg, r2, {c}) /\ r2[c].data = Null /\ (c \in DOMAIN reg => r2[c].clock >= reg[c].clock)
+MergeOK(reg, me, e, x) ==
+  IF e.client \notin DOMAIN reg THEN x = Ent(e.clock, e.data)
+  ELSE LET s == reg[e.client]
+           removal == IF e.client = me /\ s.data # Null THEN x.data = s.data /\ x.clock > e.clock
+                      ELSE x = Ent(e.clock, Null)
+       IN CASE e.clock < s.clock -> x = s
+            [] e.clock > s.clock -> IF e.data = Null THEN removal ELSE x = Ent(e.clock, e.data)
+            [] OTHER -> x = s \/ (e.data = Null /\ s.data # Null /\ removal)
+C18_ApplyStep(reg, me, u, r2) ==
+  OthersKept(reg, r2, ClientsOf(u)) /\ \A e \in u : MergeOK(reg, me, e, r2[e.client])
+
 (* order-insensitivity: `seen` = pairs <<set of updates applied, register>> *)
 (* observed so far on observer peers; a peer that has applied the same set  *)
 (* (in whatever order, with whatever repetitions) holds the same register   *)
